@@ -32,6 +32,12 @@ Result.ok(), array.map(closure), into() via user From impls, clone, len, unwrap,
 Pure calls (no `&mut` parameter) are memoised; `call_item(.., memo=False)` / `binop(.., memo=False)` skip the memo for the
 outermost call of an exhaustive sweep.
 
+Third part (end of file): `StdInterp(Interp)` = the same evaluator plus models of the std items small pure functions use
+(iterator chains over slices evaluated eagerly on lists, Option/Result/Ordering combinators, integer/float helpers, Vec
+growth, `write!`/`format!` with Rust's integer formatting, `debug_assert!` skipped, `loop`/`break value`, `unsafe {}` transparent,
+slice ranges).  It lets a rule decide on the *value* a function denotes, whichever of the equivalent idioms (loop or
+try_fold/fold/find_map, if-chain or match, helper or inline, named constant or literal) the source uses.
+
 Second part: symbolic walker for code that emits SGR chunks (no values, only the ordered shape of what is written)
     emissions(block_or_expr, env=None) -> [items]   see its docstring: push / write / mark / call / mcall / if / match / let / return
                                                     items in source order; `for` over an array literal is unrolled with the
@@ -951,3 +957,1090 @@ def emissions(node, env=None):
     if k == "return":
         return [("return", subst(e["e"], env) if e.get("e") else None)]
     return [("value", subst(e, env))]
+
+
+# =====================================================================================================
+# Third part: StdInterp — Interp plus models of std items (deciding on values, not on idioms)
+# =====================================================================================================
+class Panic(Unsupported):
+    """evaluation reached panic!/unreachable!/a failing assert!/unwrap() of None — the denotation is `diverges`"""
+
+
+class _BreakV(_Break):
+    def __init__(self, v=()):
+        self.v = v
+
+
+ORDERING = ["Less", "Equal", "Greater"]
+_NOIMPL = object()
+_PANIC_MACROS = ("panic", "unreachable", "unimplemented", "todo")
+_FMT_RX = re.compile(r"\{\{|\}\}|\{([A-Za-z_][A-Za-z0-9_]*|\d*)(?::([^}]*))?\}|\{|\}")
+_SPEC_RX = re.compile(r"^(?:(.)?([<^>]))?([+-])?(#)?(0)?(\d+)?(?:\.(\d+))?([xXob?e]?)$")
+
+
+def ordering_of(a, b):
+    if isinstance(a, EnumV) and isinstance(b, EnumV):
+        return None
+    try:
+        if a < b:
+            return EnumV("Ordering", "Less")
+        if a > b:
+            return EnumV("Ordering", "Greater")
+        if a == b:
+            return EnumV("Ordering", "Equal")
+    except TypeError:
+        pass
+    return None
+
+
+def is_optres(v):
+    return isinstance(v, tuple) and not isinstance(v, EnumV) and ((len(v) == 2 and v[0] in ("Some", "Ok", "Err")) or v == NONE)
+
+
+def _isnum(v):
+    return isinstance(v, (int, float)) and not isinstance(v, bool)
+
+
+def _isint(v):
+    return isinstance(v, int) and not isinstance(v, bool)
+
+
+class StdInterp(Interp):
+    STD_PATHS = {
+        "u8::MAX": 255, "u16::MAX": 65535, "u32::MAX": 0xFFFFFFFF, "u64::MAX": (1 << 64) - 1, "usize::MAX": (1 << 64) - 1,
+        "u8::MIN": 0, "u16::MIN": 0, "u32::MIN": 0, "u64::MIN": 0, "usize::MIN": 0,
+        "i8::MAX": 127, "i16::MAX": 32767, "i32::MAX": (1 << 31) - 1, "i64::MAX": (1 << 63) - 1, "isize::MAX": (1 << 63) - 1,
+        "i8::MIN": -128, "i16::MIN": -32768, "i32::MIN": -(1 << 31), "i64::MIN": -(1 << 63), "isize::MIN": -(1 << 63),
+        "u8::BITS": 8, "u16::BITS": 16, "u32::BITS": 32, "u64::BITS": 64, "usize::BITS": 64,
+        "f32::INFINITY": float("inf"), "f64::INFINITY": float("inf"), "f32::NEG_INFINITY": float("-inf"), "f64::NEG_INFINITY": float("-inf"),
+        "f32::MAX": 3.4028234663852886e38, "f32::MIN": -3.4028234663852886e38, "f64::MAX": 1.7976931348623157e308, "f64::MIN": -1.7976931348623157e308,
+        "char::REPLACEMENT_CHARACTER": ("char", 0xFFFD), "char::MAX": ("char", 0x10FFFF),
+    }
+
+    def __init__(self, src, max_steps=200_000_000):
+        super().__init__(src, max_steps)
+        self._enums.setdefault("Ordering", list(ORDERING))
+        self.assumed = set()          # modelling assumptions that were actually used (types are not tracked)
+        self.extern_fns.setdefault("Vec::new", lambda a: [])
+        self.extern_fns.setdefault("Vec::with_capacity", lambda a: [])
+        self.extern_fns.setdefault("Vec::from", lambda a: list(a[0]))
+        self.extern_fns.setdefault("usize::from", lambda a: _int_from(a[0]))
+        self.extern_fns.setdefault("u32::from", lambda a: _int_from(a[0]))
+        self.extern_fns.setdefault("u64::from", lambda a: _int_from(a[0]))
+
+    def default_of(self, ty):
+        t = ty.replace(" ", "")
+        if t.startswith("Vec<") or t.startswith("VecDeque<"):
+            return []
+        if t == "String":
+            return ""
+        return super().default_of(ty)
+
+    # ------------------------------------------------------------------ paths
+    def _path_value(self, p, fr):
+        if p in fr.vars:
+            return fr.vars[p]
+        q = re.sub(r"^(::)?(std|core)::(\w+::)*(?=\w+::\w+$)", "", p)
+        if q in self.STD_PATHS:
+            return self.STD_PATHS[q]
+        if p in ORDERING:
+            return EnumV("Ordering", p)
+        try:
+            return super()._path_value(q, fr)
+        except Unsupported:
+            if p in self.extern_fns or q in self.extern_fns:
+                return FnRef(p if p in self.extern_fns else q, None)
+            segs = q.split("::")
+            fn = self.find_fn(None, segs[-1], file=fr.file) if len(segs) == 1 else self.find_fn(fr.self_ty if segs[-2] == "Self" else segs[-2], segs[-1])
+            if fn is not None:
+                return FnRef(q, (fn, None if len(segs) == 1 else (fr.self_ty if segs[-2] == "Self" else segs[-2])))
+            if q in _STD_FN_REFS:
+                return FnRef(q, None)
+            raise
+
+    # ------------------------------------------------------------------ places
+    def place(self, e, fr):
+        if e.get("k") == "index" and isinstance(e.get("i"), dict) and e["i"].get("k") == "range":
+            b = self.place(e["e"], fr)
+            r = e["i"]
+            if not isinstance(b, (list, bytes, str)):
+                raise Unsupported("range index into a non-slice")
+            lo = self.eval(r["lo"], fr) if r.get("lo") else 0
+            hi = (self.eval(r["hi"], fr) + (1 if r["incl"] else 0)) if r.get("hi") else len(b)
+            if not _isint(lo) or not _isint(hi):
+                raise Unsupported("slice range bounds")
+            if not (0 <= lo <= hi <= len(b)):
+                raise Panic("slice range %d..%d out of bounds of length %d" % (lo, hi, len(b)))
+            return b[lo:hi] if isinstance(b, str) else list(b[lo:hi])
+        if e.get("k") == "index":
+            b = self.place(e["e"], fr)
+            i = self.eval(e["i"], fr)
+            if isinstance(b, (list, bytes)) and _isint(i) and not (0 <= i < len(b)):
+                raise Panic("index %d out of bounds of length %d" % (i, len(b)))
+            if not isinstance(b, (list, bytes)) or not _isint(i):
+                raise Unsupported("index into a non-array")
+            return b[i]
+        return super().place(e, fr)
+
+    # ------------------------------------------------------------------ control flow not in the base
+    def _e_block(self, e, fr):
+        for s in e.get("stmts") or []:
+            if s["k"] == "item" and isinstance(s.get("item"), dict):
+                item = s["item"]
+                if item.get("k") == "fn" and item.get("body") is not None:
+                    fr.vars[item["name"]] = LocalFn(item, fr.file)
+        for s in e.get("stmts") or []:
+            if s["k"] == "item" and isinstance(s.get("item"), dict):
+                item = s["item"]
+                if item.get("k") in ("const", "static") and item.get("expr") is not None:
+                    fr.vars[item["name"]] = self.eval(item["expr"], fr)
+        return super()._e_block(e, fr)
+
+    def _e_unsafe(self, e, fr):
+        return self.eval(e["block"], fr)
+
+    def _e_loop(self, e, fr):
+        n = 0
+        while True:
+            n += 1
+            if n > 100000:
+                raise Unsupported("loop bound")
+            try:
+                self.eval(e["body"], fr)
+            except _Break as b:
+                return getattr(b, "v", ())
+            except _Continue:
+                continue
+
+    def _e_break(self, e, fr):
+        raise _BreakV(self.eval(e["e"], fr) if e.get("e") else ())
+
+    def _e_repeat(self, e, fr):
+        n = self.eval(e["n"], fr)
+        if not _isint(n) or n < 0 or n > 1 << 20:
+            raise Unsupported("repeat length")
+        v = self.eval(e["e"], fr)
+        return [copyv(v) for _ in range(n)]
+
+    def _e_range(self, e, fr):
+        lo = self.eval(e["lo"], fr) if e.get("lo") else 0
+        if not e.get("hi"):
+            raise Unsupported("open range")
+        hi = self.eval(e["hi"], fr)
+        if not _isint(lo) or not _isint(hi) or hi - lo > 1 << 22:
+            raise Unsupported("range bounds")
+        return list(range(lo, hi + (1 if e["incl"] else 0)))
+
+    def _e_for(self, e, fr):
+        it = self.eval(e["iter"], fr)
+        if isinstance(it, bytes):
+            it = list(it)
+        if not isinstance(it, list):
+            raise Unsupported("for over non-array")
+        for x in list(it):
+            if not self.match_pat(e["pat"], x, fr.vars):
+                raise Unsupported("refutable for pattern")
+            try:
+                self.eval(e["body"], fr)
+            except _Break:
+                break
+            except _Continue:
+                continue
+        return ()
+
+    def _e_cast(self, e, fr):
+        v = self.eval(e["e"], fr)
+        ty = e["ty"].replace(" ", "")
+        if isinstance(v, tuple) and len(v) == 2 and v[0] == "char" and (ty in _INT_TY or re.fullmatch(r"i(32|64|size)", ty)):
+            return v[1] & ((1 << _INT_TY[ty]) - 1) if ty in _INT_TY else v[1]
+        if isinstance(v, bool) and (ty in _INT_TY or re.fullmatch(r"i(8|16|32|64|size)", ty)):
+            return int(v)
+        if ty in _INT_TY and isinstance(v, float):
+            if v != v:
+                return 0
+            return max(0, min(int(v), (1 << _INT_TY[ty]) - 1))          # `as` saturates (and truncates toward zero)
+        m = re.fullmatch(r"i(8|16|32|64|size)", ty)
+        if m and isinstance(v, float):
+            bits = 64 if m.group(1) == "size" else int(m.group(1))
+            if v != v:
+                return 0
+            return max(-(1 << (bits - 1)), min(int(v), (1 << (bits - 1)) - 1))
+        if m and _isint(v):
+            bits = 64 if m.group(1) == "size" else int(m.group(1))
+            v &= (1 << bits) - 1
+            return v - (1 << bits) if v >> (bits - 1) else v
+        if ty in _INT_TY and _isint(v):
+            return v & ((1 << _INT_TY[ty]) - 1)
+        if ty == "u128" and _isint(v) and v >= 0:
+            return v
+        if ty == "char" and _isint(v) and 0 <= v < 256:
+            return ("char", v)
+        return super()._e_cast({"k": "cast", "e": {"k": "$value", "v": v}, "ty": e["ty"]}, fr)
+
+    def eval(self, e, fr):
+        if e.get("k") == "$value":
+            return e["v"]
+        return super().eval(e, fr)
+
+    # ------------------------------------------------------------------ patterns
+    def match_pat(self, p, v, binds):
+        k = p["k"]
+        if k == "struct" and isinstance(v, StructV) and _last(p["path"]) in (v.ty, "Self"):
+            for f in p["fields"]:
+                if f["name"] not in v.fields or not self.match_pat(f["pat"], v.fields[f["name"]], binds):
+                    return False
+            return True
+        if k == "path" and p["p"] in ORDERING:
+            return v == EnumV("Ordering", p["p"])
+        if k == "ident" and p["name"] in ORDERING and not p.get("sub") and isinstance(v, EnumV) and v.ty == "Ordering":
+            return v.name == p["name"]
+        if k == "lit" and isinstance(v, tuple) and len(v) == 2 and v[0] == "char" and p["e"].get("t") == "char":
+            return self._lit(p["e"]) == v[1]
+        if k in ("tuple", "slice") and any(x["k"] == "rest" for x in p["elems"]) and isinstance(v, (tuple, list)) and not isinstance(v, EnumV):
+            el = p["elems"]
+            ri = [i for i, x in enumerate(el) if x["k"] == "rest"]
+            if len(ri) != 1 or len(v) < len(el) - 1:
+                return False if len(ri) == 1 else _raise(Unsupported("two rest patterns"))
+            head, tail = el[:ri[0]], el[ri[0] + 1:]
+            vs = list(v)
+            return all(self.match_pat(a, x, binds) for a, x in zip(head, vs[:len(head)])) and \
+                all(self.match_pat(a, x, binds) for a, x in zip(tail, vs[len(vs) - len(tail):]))
+        return super().match_pat(p, v, binds)
+
+    # ------------------------------------------------------------------ macros
+    def _e_macro(self, e, fr):
+        sh = e.get("short")
+        if sh in ("debug_assert", "debug_assert_eq", "debug_assert_ne"):
+            return ()             # compiled out in release builds; whether it can fire is another rule's obligation (DEBUGCHK)
+        args = e.get("args")
+        if sh in _PANIC_MACROS:
+            raise Panic("%s! reached" % sh)
+        if sh == "assert" and args:
+            if self._cond(args[0], fr) is not True:
+                raise Panic("assert! fails")
+            return ()
+        if sh in ("assert_eq", "assert_ne") and args and len(args) >= 2:
+            a, b = self.eval(args[0], fr), self.eval(args[1], fr)
+            if (a == b) != (sh == "assert_eq"):
+                raise Panic("%s! fails" % sh)
+            return ()
+        if sh in ("write", "writeln") and args and len(args) >= 2:
+            dst = self.place(args[0], fr)
+            text = self.format(args[1:], fr) + ("\n" if sh == "writeln" else "")
+            return self.write_to(dst, text.encode("utf-8"), fr)
+        if sh == "format" and args:
+            return self.format(args, fr)
+        if sh == "vec":
+            if args is not None:
+                return [self.eval(a, fr) for a in args]
+            rep = (e.get("extra") or {}).get("repeat")
+            if rep:
+                return self._e_repeat({"e": rep[0], "n": rep[1]}, fr)
+        return super()._e_macro(e, fr)
+
+    def write_to(self, dst, data, fr):
+        """`write!(dst, ..)` once the text is formatted: io::Write::write_fmt -> write_all -> write (or fmt::Write::write_str)"""
+        if isinstance(dst, list):
+            dst.extend(data)
+            return ("Ok", ())
+        if isinstance(dst, StructV):
+            f = self.find_fn(dst.ty, "write_all", "Write")
+            if f is not None:
+                return self.call_item(f[2], dst.ty, [dst, list(data)], f[0])
+            f = self.find_fn(dst.ty, "write", "Write")
+            if f is not None:
+                rest = list(data)
+                for _ in range(len(data) + 1):
+                    if not rest:
+                        return ("Ok", ())
+                    r = self.call_item(f[2], dst.ty, [dst, rest], f[0])
+                    if not (isinstance(r, tuple) and len(r) == 2 and r[0] in ("Ok", "Err")):
+                        raise Unsupported("Write::write result")
+                    if r[0] == "Err":
+                        return r
+                    if not _isint(r[1]) or r[1] <= 0 or r[1] > len(rest):
+                        return ("Err", "WriteZero")
+                    rest = rest[r[1]:]
+                return ("Ok", ())
+            f = self.find_fn(dst.ty, "write_str", "Write") or self.find_fn(dst.ty, "write_str", "fmt::Write")
+            if f is not None:
+                return self.call_item(f[2], dst.ty, [dst, data.decode("utf-8")], f[0])
+        raise Unsupported("write! into %s" % (dst.ty if isinstance(dst, StructV) else type(dst).__name__))
+
+    def format(self, args_e, fr):
+        f0 = args_e[0]
+        if f0.get("k") != "lit" or f0.get("t") != "str":
+            raise Unsupported("format string is not a literal")
+        pos, named = [], {}
+        for a in args_e[1:]:
+            if a.get("k") == "assign" and a["l"].get("k") == "path":
+                named[a["l"]["p"]] = self.eval(a["r"], fr)
+            else:
+                pos.append(self.eval(a, fr))
+        out = []
+        nxt = [0]
+        last = 0
+        fmt = f0["v"]
+        for m in _FMT_RX.finditer(fmt):
+            out.append(fmt[last:m.start()])
+            last = m.end()
+            t = m.group(0)
+            if t == "{{":
+                out.append("{")
+                continue
+            if t == "}}":
+                out.append("}")
+                continue
+            if t in ("{", "}"):
+                raise Unsupported("format string")
+            name = m.group(1)
+            if name == "":
+                if nxt[0] >= len(pos):
+                    raise Unsupported("format arguments")
+                v = pos[nxt[0]]
+                nxt[0] += 1
+            elif name.isdigit():
+                if int(name) >= len(pos):
+                    raise Unsupported("format arguments")
+                v = pos[int(name)]
+            elif name in named:
+                v = named[name]
+            else:
+                v = self._path_value(name, fr)          # inline captured identifier
+            out.append(self.format_value(v, m.group(2) or ""))
+        out.append(fmt[last:])
+        return "".join(out)
+
+    def format_value(self, v, spec):
+        m = _SPEC_RX.match(spec)
+        if not m:
+            raise Unsupported("format spec {:%s}" % spec)
+        fill, align, sign, alt, zero, width, prec, ty = m.groups()
+        width = int(width) if width else 0
+        if ty == "?" or ty == "e":
+            raise Unsupported("format spec {:%s}" % spec)
+        numeric = False
+        if isinstance(v, bool):
+            body = "true" if v else "false"
+        elif _isint(v):
+            numeric = True
+            a = abs(v)
+            if ty == "":
+                digits, prefix = str(a), ""
+            elif ty in "xX":
+                digits, prefix = ("%x" if ty == "x" else "%X") % a, "0x"
+            elif ty == "o":
+                digits, prefix = "%o" % a, "0o"
+            else:
+                digits, prefix = bin(a)[2:], "0b"
+            if v < 0 and ty != "":
+                raise Unsupported("radix formatting of a negative number")
+            sg = "-" if v < 0 else ("+" if sign == "+" else "")
+            pre = sg + (prefix if alt else "")
+            if zero and width > len(pre) + len(digits):
+                digits = "0" * (width - len(pre) - len(digits)) + digits
+            body = pre + digits
+        elif isinstance(v, float):
+            numeric = True
+            if ty:
+                raise Unsupported("format spec {:%s} on a float" % spec)
+            if prec is not None:
+                body = "%.*f" % (int(prec), v)
+            elif v == int(v) and abs(v) < 1e16:
+                body = str(int(v))
+            else:
+                body = repr(v)
+            if sign == "+" and v >= 0:
+                body = "+" + body
+            if zero and width > len(body):
+                body = ("-" if body.startswith("-") else "") + "0" * (width - len(body)) + body.lstrip("-")
+        elif isinstance(v, str):
+            if ty:
+                raise Unsupported("format spec {:%s} on a string" % spec)
+            body = v if prec is None else v[:int(prec)]
+        elif isinstance(v, tuple) and len(v) == 2 and v[0] == "char":
+            body = chr(v[1])
+        else:
+            raise Unsupported("Display of %s" % type(v).__name__)
+        if width > len(body):
+            pad = width - len(body)
+            fc = fill or " "
+            al = align or (">" if numeric else "<")
+            if al == "<":
+                body = body + fc * pad
+            elif al == ">":
+                body = fc * pad + body
+            else:
+                body = fc * (pad // 2) + body + fc * (pad - pad // 2)
+        return body
+
+    # ------------------------------------------------------------------ calls
+    def _e_call(self, e, fr):
+        f = e["f"]
+        if f.get("k") == "path":
+            p = f["p"]
+            args_e = e.get("args") or []
+            if p not in self.extern_fns:
+                if p in fr.vars and isinstance(fr.vars[p], ClosureV):
+                    return self.call_closure(fr.vars[p], [self.eval(a, fr) for a in args_e])
+                if p in fr.vars and isinstance(fr.vars[p], LocalFn):
+                    lf = fr.vars[p]
+                    return self._apply((lf.file, None, lf.item), None, args_e, fr)
+                q = re.sub(r"^(::)?(std|core)::(\w+::)*(?=\w+::\w+$)", "", p)
+                if q in ("char::from_u32", "char::from_digit") and q in self.extern_fns:
+                    return self.extern_fns[q]([self.place(a, fr) for a in args_e])
+                segs = q.split("::")
+                if len(segs) == 2 and segs[1] == "from" and (segs[0] in _INT_TY or re.fullmatch(r"[iu](8|16|32|64|128|size)", segs[0])) and len(args_e) == 1:
+                    return _int_from(self.eval(args_e[0], fr))
+                if len(segs) == 2 and segs[1] in ("min", "max") and segs[0] in ("std::cmp", "cmp") and len(args_e) == 2:
+                    a, b = self.eval(args_e[0], fr), self.eval(args_e[1], fr)
+                    return self.std_method(a, segs[1], [b])
+                if q in ("cmp::min", "cmp::max", "std::cmp::min", "std::cmp::max") and len(args_e) == 2:
+                    a, b = self.eval(args_e[0], fr), self.eval(args_e[1], fr)
+                    return self.std_method(a, q.split("::")[-1], [b])
+        return super()._e_call(e, fr)
+
+    def _closure_call(self, f, args):
+        if isinstance(f, ClosureV):
+            return self.call_closure(f, args)
+        if isinstance(f, LocalFn):
+            return self.call_item(f.item, None, list(args), f.file)
+        if isinstance(f, FnRef):
+            if f.path in self.extern_fns:
+                return self.extern_fns[f.path](list(args))
+            if f.target is not None:
+                (file, tr, item), ty = f.target
+                return self.call_item(item, ty, list(args), file)
+            if f.path in _STD_FN_REFS and len(args) == 1:
+                r = self.std_method(args[0], _STD_FN_REFS[f.path], [])
+                if r is not _NOIMPL:
+                    return r
+        raise Unsupported("callable argument is not a closure")
+
+    def _e_mcall(self, e, fr):
+        m = e["m"]
+        args_e = e.get("args") or []
+        r0 = e["recv"]
+        if m == "contains" and len(args_e) == 1 and r0.get("k") == "range" and (r0.get("lo") or r0.get("hi")):
+            lo = self.eval(r0["lo"], fr) if r0.get("lo") else None        # (a..b).contains(&x) without materialising the range
+            hi = self.eval(r0["hi"], fr) if r0.get("hi") else None
+            v = self.place(args_e[0], fr)
+            if isinstance(v, tuple) and len(v) == 2 and v[0] == "char":
+                v = v[1]
+            if all(x is None or _isnum(x) for x in (lo, hi)) and _isnum(v):
+                return (lo is None or lo <= v) and (hi is None or (v <= hi if r0["incl"] else v < hi))
+            raise Unsupported("range contains on non-numbers")
+        recv = self.place(r0, fr)
+        ty = recv.ty if isinstance(recv, (StructV, EnumV)) else None
+        if ty is not None and ty != "Ordering":
+            fn = self.find_fn(ty, m)
+            if fn is not None:
+                return self._apply(fn, ty, args_e, fr, recv=recv)
+        if m in self.extern_methods:
+            return self.extern_methods[m](recv, [self.place(a, fr) for a in args_e])
+        if m == "into" and ty is not None and not args_e:
+            cands = [(f, s, tr, item) for (f, s, tr, item, t) in self.src.fns
+                     if not t and item["name"] == "from" and tr is not None and tr.replace(" ", "") == "From<%s>" % ty]
+            if len(cands) == 1:
+                f, s, tr, item = cands[0]
+                return self.call_item(item, s, [copyv(recv)], f)
+            raise Unsupported("into() target of " + ty)
+        args = [self.place(a, fr) for a in args_e]
+        r = self.std_method(recv, m, args)
+        if r is _NOIMPL:
+            raise Unsupported("method %s on %s" % (m, ty or type(recv).__name__))
+        return r
+
+    # ------------------------------------------------------------------ std method models
+    def std_method(self, recv, m, a):
+        n = len(a)
+        if isinstance(recv, EnumV) and recv.ty == "Ordering":
+            return self._m_ordering(recv, m, a)
+        if is_optres(recv):
+            r = self._m_optres(recv, m, a)
+            if r is not _NOIMPL:
+                return r
+        if _isnum(recv):
+            r = self._m_num(recv, m, a)
+            if r is not _NOIMPL:
+                return r
+        if isinstance(recv, (list, bytes)):
+            r = self._m_seq(recv, m, a)
+            if r is not _NOIMPL:
+                return r
+        if isinstance(recv, str):
+            r = self._m_str(recv, m, a)
+            if r is not _NOIMPL:
+                return r
+        if isinstance(recv, tuple) and len(recv) == 2 and recv[0] == "char" and _isint(recv[1]):
+            r = self._m_char(recv, m, a)
+            if r is not _NOIMPL:
+                return r
+        if m in ("clone", "to_owned", "borrow", "as_ref", "as_mut", "by_ref", "deref") and n == 0:
+            return copyv(recv) if m in ("clone", "to_owned") else recv
+        if m in ("cmp", "partial_cmp") and n == 1:
+            o = ordering_of(recv, a[0])
+            if o is not None:
+                return o if m == "cmp" else some(o)
+        if m in ("eq", "ne") and n == 1:
+            return (recv == a[0]) == (m == "eq")
+        if m in ("lt", "le", "gt", "ge") and n == 1:
+            return self.binop({"lt": "<", "le": "<=", "gt": ">", "ge": ">="}[m], recv, a[0])
+        return _NOIMPL
+
+    def _m_ordering(self, o, m, a):
+        i = ORDERING.index(o.name) - 1
+        if m == "reverse" and not a:
+            return EnumV("Ordering", ORDERING[1 - i])
+        if m in ("is_lt", "is_le", "is_gt", "is_ge", "is_eq", "is_ne") and not a:
+            return {"is_lt": i < 0, "is_le": i <= 0, "is_gt": i > 0, "is_ge": i >= 0, "is_eq": i == 0, "is_ne": i != 0}[m]
+        if m == "then" and len(a) == 1:
+            return o if i != 0 else a[0]
+        if m == "then_with" and len(a) == 1:
+            return o if i != 0 else self._closure_call(a[0], [])
+        if m in ("clone",):
+            return o
+        if m in ("cmp", "partial_cmp") and len(a) == 1 and isinstance(a[0], EnumV) and a[0].ty == "Ordering":
+            r = ordering_of(i, ORDERING.index(a[0].name) - 1)
+            return r if m == "cmp" else some(r)
+        return _NOIMPL
+
+    def _m_optres(self, v, m, a):
+        n = len(a)
+        good = v != NONE and v[0] in ("Some", "Ok")
+        kind = "opt" if (v == NONE or v[0] == "Some") else "res"
+        if m in ("unwrap", "expect") and n <= 1:
+            if good:
+                return v[1]
+            raise Panic("%s() on %s" % (m, "None" if v == NONE else "Err"))
+        if m == "unwrap_or" and n == 1:
+            return v[1] if good else a[0]
+        if m == "unwrap_or_else" and n == 1:
+            return v[1] if good else self._closure_call(a[0], [] if kind == "opt" else [v[1]])
+        if m == "unwrap_or_default" and n == 0 and good:
+            return v[1]
+        if m == "map" and n == 1:
+            return (v[0], self._closure_call(a[0], [v[1]])) if good else v
+        if m == "map_err" and n == 1 and kind == "res":
+            return v if good else ("Err", self._closure_call(a[0], [v[1]]))
+        if m == "map_or" and n == 2:
+            return self._closure_call(a[1], [v[1]]) if good else a[0]
+        if m == "map_or_else" and n == 2:
+            return self._closure_call(a[1], [v[1]]) if good else self._closure_call(a[0], [] if kind == "opt" else [v[1]])
+        if m == "and_then" and n == 1:
+            return self._closure_call(a[0], [v[1]]) if good else v
+        if m == "and" and n == 1:
+            return a[0] if good else v
+        if m == "or" and n == 1:
+            return v if good else a[0]
+        if m == "or_else" and n == 1:
+            return v if good else self._closure_call(a[0], [] if kind == "opt" else [v[1]])
+        if m == "filter" and n == 1 and kind == "opt":
+            return v if good and self._closure_call(a[0], [v[1]]) is True else NONE
+        if m == "ok_or" and n == 1 and kind == "opt":
+            return ("Ok", v[1]) if good else ("Err", a[0])
+        if m == "ok_or_else" and n == 1 and kind == "opt":
+            return ("Ok", v[1]) if good else ("Err", self._closure_call(a[0], []))
+        if m == "ok" and n == 0 and kind == "res":
+            return some(v[1]) if good else NONE
+        if m == "err" and n == 0 and kind == "res":
+            return NONE if good else some(v[1])
+        if m == "is_some" and n == 0:
+            return v != NONE
+        if m == "is_none" and n == 0:
+            return v == NONE
+        if m == "is_ok" and n == 0 and kind == "res":
+            return good
+        if m == "is_err" and n == 0 and kind == "res":
+            return not good
+        if m in ("copied", "cloned", "as_ref", "as_mut", "as_deref", "clone") and n == 0:
+            return v
+        if m == "iter" or m == "into_iter":
+            return [v[1]] if good else []
+        if m == "take" and n == 0 and kind == "opt":
+            raise Unsupported("Option::take")
+        return _NOIMPL
+
+    def _m_num(self, v, m, a):
+        n = len(a)
+        if m in ("min", "max") and n == 1 and _isnum(a[0]):
+            return min(v, a[0]) if m == "min" else max(v, a[0])
+        if m == "clamp" and n == 2 and _isnum(a[0]) and _isnum(a[1]):
+            if a[0] > a[1]:
+                raise Panic("clamp with min > max")
+            return min(max(v, a[0]), a[1])
+        if m == "abs" and n == 0:
+            return abs(v)
+        if m in ("cmp", "partial_cmp", "total_cmp") and n == 1 and _isnum(a[0]):
+            o = ordering_of(v, a[0])
+            if o is None:
+                return NONE if m == "partial_cmp" else _raise(Unsupported("total order of NaN"))
+            return some(o) if m == "partial_cmp" else o
+        if isinstance(v, float):
+            import math
+            if m == "sqrt" and n == 0:
+                return math.sqrt(v) if v >= 0 else float("nan")
+            if m in ("powi", "powf") and n == 1 and _isnum(a[0]):
+                return v ** a[0]
+            if m == "round" and n == 0:
+                return float(math.floor(abs(v) + 0.5)) * (1 if v >= 0 else -1)
+            if m == "floor" and n == 0:
+                return float(math.floor(v))
+            if m == "ceil" and n == 0:
+                return float(math.ceil(v))
+            if m == "trunc" and n == 0:
+                return float(int(v))
+            if m == "mul_add" and n == 2:
+                return v * a[0] + a[1]
+            if m == "is_nan" and n == 0:
+                return v != v
+            if m == "is_finite" and n == 0:
+                return v == v and abs(v) != float("inf")
+            return _NOIMPL
+        # integers
+        if m == "pow" and n == 1 and _isint(a[0]) and 0 <= a[0] < 200:
+            return v ** a[0]
+        if m in ("abs_diff",) and n == 1 and _isint(a[0]):
+            return abs(v - a[0])
+        if m == "unsigned_abs" and n == 0:
+            return abs(v)
+        if m == "rem_euclid" and n == 1 and _isint(a[0]) and a[0] > 0:
+            return v % a[0]
+        if m == "div_euclid" and n == 1 and _isint(a[0]) and a[0] > 0:
+            return v // a[0]
+        if m == "saturating_sub" and n == 1 and _isint(a[0]):
+            if v >= 0 and a[0] >= 0:
+                if v - a[0] >= 0:
+                    return v - a[0]
+                raise Unsupported("saturating_sub below zero needs the operand type")
+            raise Unsupported("saturating_sub on negative operands")
+        if m == "checked_sub" and n == 1 and _isint(a[0]) and v >= 0 and a[0] >= 0:
+            if v >= a[0]:
+                return some(v - a[0])
+            self.assumed.add("checked_sub going below zero is None (operands taken to be of an unsigned type)")
+            return NONE
+        if m in ("checked_add", "checked_mul", "saturating_add", "saturating_mul", "wrapping_add", "wrapping_mul") and n == 1 and _isint(a[0]) and v >= 0 and a[0] >= 0:
+            r = v + a[0] if m.endswith("add") else v * a[0]
+            if r <= 127:                      # fits every integer type: no overflow whichever type the operands have
+                return some(r) if m.startswith("checked") else r
+            raise Unsupported("%s needs the operand type" % m)
+        if m == "checked_div" and n == 1 and _isint(a[0]) and v >= 0 and a[0] >= 0:
+            return NONE if a[0] == 0 else some(v // a[0])
+        if m in ("is_ascii_digit", "is_ascii_alphabetic", "is_ascii_hexdigit", "is_ascii_uppercase", "is_ascii_lowercase", "is_ascii") and n == 0 and 0 <= v < 256:
+            c = chr(v)
+            return {"is_ascii_digit": "0" <= c <= "9", "is_ascii_alphabetic": c.isascii() and c.isalpha(), "is_ascii_hexdigit": c in "0123456789abcdefABCDEF",
+                    "is_ascii_uppercase": "A" <= c <= "Z", "is_ascii_lowercase": "a" <= c <= "z", "is_ascii": v < 128}[m]
+        if m == "to_string" and n == 0:
+            return str(v)
+        if m in ("into", "try_into") and n == 0:
+            raise Unsupported("integer conversion needs the target type")
+        return _NOIMPL
+
+    def _m_char(self, v, m, a):
+        c = v[1]
+        if m == "is_ascii_digit" and not a:
+            return 48 <= c <= 57
+        if m == "is_control" and not a:
+            return c < 32 or 127 <= c < 160
+        if m == "to_digit" and len(a) == 1 and _isint(a[0]) and 2 <= a[0] <= 36:
+            try:
+                d = int(chr(c), 36)
+            except ValueError:
+                return NONE
+            return some(d) if d < a[0] else NONE
+        if m == "len_utf8" and not a:
+            return len(chr(c).encode("utf-8"))
+        return _NOIMPL
+
+    def _m_str(self, s, m, a):
+        n = len(a)
+        if m == "len" and n == 0:
+            return len(s.encode("utf-8"))
+        if m == "is_empty" and n == 0:
+            return s == ""
+        if m in ("as_bytes", "bytes", "into_bytes") and n == 0:
+            return list(s.encode("utf-8"))
+        if m == "chars" and n == 0:
+            return [("char", ord(c)) for c in s]
+        if m in ("to_string", "to_owned", "as_str", "as_ref", "clone", "trim") and n == 0:
+            return s.strip() if m == "trim" else s
+        if m in ("starts_with", "ends_with", "contains") and n == 1 and isinstance(a[0], (str, tuple)):
+            t = a[0] if isinstance(a[0], str) else chr(a[0][1])
+            return {"starts_with": s.startswith(t), "ends_with": s.endswith(t), "contains": t in s}[m]
+        if m in ("strip_prefix", "strip_suffix") and n == 1 and isinstance(a[0], str):
+            if m == "strip_prefix":
+                return some(s[len(a[0]):]) if s.startswith(a[0]) else NONE
+            return some(s[:len(s) - len(a[0])]) if s.endswith(a[0]) else NONE
+        if m == "split" and n == 1 and (isinstance(a[0], str) or (isinstance(a[0], tuple) and a[0][0] == "char") or _isint(a[0])):
+            t = a[0] if isinstance(a[0], str) else chr(a[0][1] if isinstance(a[0], tuple) else a[0])
+            return s.split(t)
+        return _NOIMPL
+
+    def _truth(self, f, args):
+        r = self._closure_call(f, args)
+        if not isinstance(r, bool):
+            raise Unsupported("predicate closure returned a non-bool")
+        return r
+
+    def _cmp_by(self, f, x, y):
+        r = self._closure_call(f, [x, y])
+        if not (isinstance(r, EnumV) and r.ty == "Ordering"):
+            raise Unsupported("comparator closure returned a non-Ordering")
+        return ORDERING.index(r.name) - 1
+
+    def _m_seq(self, s, m, a):
+        n = len(a)
+        seq = list(s) if isinstance(s, bytes) else s
+        if m in ("iter", "into_iter", "iter_mut", "copied", "cloned", "collect", "to_vec", "to_owned", "clone", "into_vec", "peekable", "fuse", "into_boxed_slice", "drain_all") and n == 0:
+            return [copyv(x) for x in seq] if m in ("to_vec", "to_owned", "clone") else list(seq)
+        if m in ("as_slice", "as_ref", "as_mut", "by_ref", "as_mut_slice", "borrow", "deref") and n == 0:
+            return s
+        if m == "len" and n == 0:
+            return len(seq)
+        if m == "is_empty" and n == 0:
+            return not seq
+        if m == "next" and n == 0 and isinstance(s, list):
+            return some(s.pop(0)) if s else NONE
+        if m == "next_back" and n == 0 and isinstance(s, list):
+            return some(s.pop()) if s else NONE
+        if m == "first" and n == 0:
+            return some(seq[0]) if seq else NONE
+        if m == "last" and n == 0:
+            return some(seq[-1]) if seq else NONE
+        if m == "get" and n == 1 and _isint(a[0]):
+            return some(seq[a[0]]) if 0 <= a[0] < len(seq) else NONE
+        if m == "nth" and n == 1 and _isint(a[0]):
+            return some(seq[a[0]]) if 0 <= a[0] < len(seq) else NONE
+        if m == "contains" and n == 1:
+            return a[0] in seq
+        if m == "enumerate" and n == 0:
+            return [(i, x) for i, x in enumerate(seq)]
+        if m == "rev" and n == 0:
+            return list(reversed(seq))
+        if m in ("skip", "take", "step_by") and n == 1 and _isint(a[0]) and a[0] >= 0:
+            if m == "skip":
+                return seq[a[0]:]
+            if m == "take":
+                return seq[:a[0]]
+            if a[0] == 0:
+                raise Panic("step_by(0)")
+            return seq[::a[0]]
+        if m in ("zip", "chain") and n == 1 and isinstance(a[0], (list, bytes)):
+            o = list(a[0])
+            return [(x, y) for x, y in zip(seq, o)] if m == "zip" else list(seq) + o
+        if m == "map" and n == 1:
+            return [self._closure_call(a[0], [copyv(x)]) for x in seq]
+        if m == "filter" and n == 1:
+            return [x for x in seq if self._truth(a[0], [x])]
+        if m == "filter_map" and n == 1:
+            out = []
+            for x in seq:
+                r = self._closure_call(a[0], [x])
+                if not is_optres(r):
+                    raise Unsupported("filter_map closure result")
+                if r != NONE and r[0] == "Some":
+                    out.append(r[1])
+            return out
+        if m == "flat_map" and n == 1:
+            out = []
+            for x in seq:
+                r = self._closure_call(a[0], [x])
+                if is_optres(r):
+                    r = [r[1]] if r != NONE and r[0] in ("Some", "Ok") else []
+                if not isinstance(r, (list, bytes)):
+                    raise Unsupported("flat_map closure result")
+                out += list(r)
+            return out
+        if m == "flatten" and n == 0:
+            out = []
+            for r in seq:
+                if is_optres(r):
+                    r = [r[1]] if r != NONE and r[0] in ("Some", "Ok") else []
+                if not isinstance(r, (list, bytes)):
+                    raise Unsupported("flatten element")
+                out += list(r)
+            return out
+        if m in ("take_while", "skip_while") and n == 1:
+            k = 0
+            while k < len(seq) and self._truth(a[0], [seq[k]]):
+                k += 1
+            return seq[:k] if m == "take_while" else seq[k:]
+        if m == "fold" and n == 2:
+            acc = a[0]
+            for x in seq:
+                acc = self._closure_call(a[1], [acc, x])
+            return acc
+        if m == "try_fold" and n == 2:
+            acc = a[0]
+            wrap = None
+            for x in seq:
+                r = self._closure_call(a[1], [acc, x])
+                if not is_optres(r):
+                    raise Unsupported("try_fold closure result")
+                if r == NONE or r[0] == "Err":
+                    return r
+                wrap, acc = r[0], r[1]
+            if wrap is None:
+                raise Unsupported("try_fold over an empty sequence (Option or Result is not known)")
+            return (wrap, acc)
+        if m == "for_each" and n == 1:
+            for x in seq:
+                self._closure_call(a[0], [x])
+            return ()
+        if m == "try_for_each" and n == 1:
+            wrap = None
+            for x in seq:
+                r = self._closure_call(a[0], [x])
+                if not is_optres(r):
+                    raise Unsupported("try_for_each closure result")
+                if r == NONE or r[0] == "Err":
+                    return r
+                wrap = r[0]
+            if wrap is None:
+                raise Unsupported("try_for_each over an empty sequence")
+            return (wrap, ())
+        if m == "find" and n == 1:
+            for x in seq:
+                if self._truth(a[0], [x]):
+                    return some(x)
+            return NONE
+        if m == "find_map" and n == 1:
+            for x in seq:
+                r = self._closure_call(a[0], [x])
+                if not is_optres(r):
+                    raise Unsupported("find_map closure result")
+                if r != NONE:
+                    return r
+            return NONE
+        if m in ("position", "rposition") and n == 1:
+            idx = range(len(seq)) if m == "position" else range(len(seq) - 1, -1, -1)
+            for i in idx:
+                if self._truth(a[0], [seq[i]]):
+                    return some(i)
+            return NONE
+        if m == "any" and n == 1:
+            for x in seq:
+                if self._truth(a[0], [x]):
+                    return True
+            return False
+        if m == "all" and n == 1:
+            for x in seq:
+                if not self._truth(a[0], [x]):
+                    return False
+            return True
+        if m == "count" and n == 0:
+            return len(seq)
+        if m in ("sum", "product") and n == 0 and all(_isnum(x) for x in seq):
+            r = 0 if m == "sum" else 1
+            for x in seq:
+                r = r + x if m == "sum" else r * x
+            if not seq:
+                raise Unsupported("%s of an empty sequence (element type not known)" % m)
+            return r
+        if m in ("min", "max") and n == 0:
+            if not seq:
+                return NONE
+            best = seq[0]
+            for x in seq[1:]:
+                o = ordering_of(best, x)
+                if o is None:
+                    raise Unsupported("ordering of sequence elements")
+                if (m == "max" and o.name != "Greater") or (m == "min" and o.name == "Greater"):
+                    best = x
+            return some(best)
+        if m in ("min_by", "max_by") and n == 1:
+            if not seq:
+                return NONE
+            best = seq[0]
+            for x in seq[1:]:
+                c = self._cmp_by(a[0], best, x)
+                if (m == "max_by" and c <= 0) or (m == "min_by" and c > 0):
+                    best = x
+            return some(best)
+        if m in ("min_by_key", "max_by_key") and n == 1:
+            if not seq:
+                return NONE
+            best, bk = seq[0], self._closure_call(a[0], [seq[0]])
+            for x in seq[1:]:
+                k = self._closure_call(a[0], [x])
+                o = ordering_of(bk, k)
+                if o is None:
+                    raise Unsupported("ordering of keys")
+                if (m == "max_by_key" and o.name != "Greater") or (m == "min_by_key" and o.name == "Greater"):
+                    best, bk = x, k
+            return some(best)
+        if m in ("windows", "chunks", "chunks_exact") and n == 1 and _isint(a[0]):
+            k = a[0]
+            if k <= 0:
+                raise Panic("%s(0)" % m)
+            if m == "windows":
+                return [seq[i:i + k] for i in range(0, len(seq) - k + 1)]
+            out = [seq[i:i + k] for i in range(0, len(seq), k)]
+            return [c for c in out if len(c) == k] if m == "chunks_exact" else out
+        if m in ("split_first", "split_last") and n == 0:
+            if not seq:
+                return NONE
+            return some((seq[0], seq[1:])) if m == "split_first" else some((seq[-1], seq[:-1]))
+        if m == "split_at" and n == 1 and _isint(a[0]):
+            if not 0 <= a[0] <= len(seq):
+                raise Panic("split_at out of bounds")
+            return (seq[:a[0]], seq[a[0]:])
+        if m == "size_hint" and n == 0:
+            return (len(seq), some(len(seq)))
+        if m in ("strip_prefix", "strip_suffix") and n == 1 and isinstance(a[0], (list, bytes)):
+            o = list(a[0])
+            if m == "strip_prefix":
+                return some(seq[len(o):]) if seq[:len(o)] == o else NONE
+            return some(seq[:len(seq) - len(o)]) if len(o) <= len(seq) and seq[len(seq) - len(o):] == o else NONE
+        if m == "splitn" and n == 2 and _isint(a[0]) and isinstance(a[1], (ClosureV, FnRef, LocalFn)):
+            out, cur = [], []
+            for x in seq:
+                if len(out) < a[0] - 1 and self._truth(a[1], [x]):
+                    out.append(cur)
+                    cur = []
+                else:
+                    cur.append(x)
+            out.append(cur)
+            return out
+        if m in ("starts_with", "ends_with") and n == 1 and isinstance(a[0], (list, bytes)):
+            o = list(a[0])
+            return seq[:len(o)] == o if m == "starts_with" else (len(o) <= len(seq) and seq[len(seq) - len(o):] == o)
+        if m == "split" and n == 1 and isinstance(a[0], (ClosureV, FnRef, LocalFn)):
+            out, cur = [], []
+            for x in seq:
+                if self._truth(a[0], [x]):
+                    out.append(cur)
+                    cur = []
+                else:
+                    cur.append(x)
+            out.append(cur)
+            return out
+        if m == "binary_search" and n == 1:
+            return self._bsearch(seq, lambda x: ordering_of(x, a[0]))
+        if m == "binary_search_by" and n == 1:
+            return self._bsearch(seq, lambda x: self._closure_call(a[0], [x]))
+        if m == "binary_search_by_key" and n == 2:
+            return self._bsearch(seq, lambda x: ordering_of(self._closure_call(a[1], [x]), a[0]))
+        if m == "partition_point" and n == 1:
+            flags = [self._truth(a[0], [x]) for x in seq]
+            k = 0
+            while k < len(flags) and flags[k]:
+                k += 1
+            if any(flags[k:]):
+                raise PreconditionViolated("partition_point", "the predicate is not true on a prefix and false on the rest: %s" % flags)
+            return k
+        # Vec / io::Write growth (in place)
+        if isinstance(s, list):
+            if m in ("extend", "extend_from_slice", "append") and n == 1 and isinstance(a[0], (list, bytes)):
+                s.extend(list(a[0]))
+                if m == "append" and isinstance(a[0], list):
+                    del a[0][:]
+                return ()
+            if m == "push" and n == 1:
+                s.append(a[0])
+                return ()
+            if m == "pop" and n == 0:
+                return some(s.pop()) if s else NONE
+            if m == "clear" and n == 0:
+                del s[:]
+                return ()
+            if m == "truncate" and n == 1 and _isint(a[0]):
+                del s[a[0]:]
+                return ()
+            if m in ("reserve", "reserve_exact") and n == 1:
+                return ()
+            if m == "shrink_to_fit" and n == 0:
+                return ()
+            if m == "reverse" and n == 0:
+                s.reverse()
+                return ()
+            if m == "swap" and n == 2 and _isint(a[0]) and _isint(a[1]):
+                if not (0 <= a[0] < len(s) and 0 <= a[1] < len(s)):
+                    raise Panic("swap out of bounds")
+                s[a[0]], s[a[1]] = s[a[1]], s[a[0]]
+                return ()
+            if m == "fill" and n == 1:
+                for i in range(len(s)):
+                    s[i] = copyv(a[0])
+                return ()
+            if m == "insert" and n == 2 and _isint(a[0]) and 0 <= a[0] <= len(s):
+                s.insert(a[0], a[1])
+                return ()
+            if m == "remove" and n == 1 and _isint(a[0]):
+                if not 0 <= a[0] < len(s):
+                    raise Panic("remove out of bounds")
+                return s.pop(a[0])
+            if m in ("sort", "sort_unstable") and n == 0 and all(_isnum(x) for x in s):
+                s.sort()
+                return ()
+            if m == "write" and n == 1 and isinstance(a[0], (list, bytes)):
+                s.extend(list(a[0]))
+                return ("Ok", len(a[0]))
+            if m == "write_all" and n == 1 and isinstance(a[0], (list, bytes)):
+                s.extend(list(a[0]))
+                return ("Ok", ())
+            if m == "flush" and n == 0:
+                return ("Ok", ())
+        return _NOIMPL
+
+    def _bsearch(self, seq, cmp):
+        """slice::binary_search_by: every element is compared with the probe; the orderings must read Less* Equal* Greater*
+        (the precondition of the search — otherwise the result is unspecified and PreconditionViolated is raised)"""
+        os_ = []
+        for x in seq:
+            o = cmp(x)
+            if not (isinstance(o, EnumV) and o.ty == "Ordering"):
+                raise Unsupported("comparator result is not an Ordering")
+            os_.append(ORDERING.index(o.name) - 1)
+        if any(x > y for x, y in zip(os_, os_[1:])):
+            raise PreconditionViolated("binary_search_by", "the comparator does not order the slice as Less.. Equal.. Greater..: %s" % os_)
+        eq = [i for i, o in enumerate(os_) if o == 0]
+        if len(eq) > 1:
+            raise PreconditionViolated("binary_search_by", "several elements compare Equal: any of them may be returned")
+        if eq:
+            return ("Ok", eq[0])
+        return ("Err", sum(1 for o in os_ if o < 0))
+
+
+_STD_FN_REFS = {"char::is_control": "is_control", "char::is_ascii_digit": "is_ascii_digit", "u8::is_ascii_digit": "is_ascii_digit",
+                 "Option::is_some": "is_some", "Option::is_none": "is_none", "Result::ok": "ok", "Result::is_ok": "is_ok"}
+
+
+class FnRef:
+    """a function named as a value (`.and_then(number_decode)`): path + resolved user fn ((file, trait, item), impl type) or None"""
+    __slots__ = ("path", "target")
+
+    def __init__(self, path, target):
+        self.path = path
+        self.target = target
+
+
+class LocalFn:
+    """fn item declared inside a block (visible in that block only)"""
+    __slots__ = ("item", "file")
+
+    def __init__(self, item, file):
+        self.item = item
+        self.file = file
+
+
+class PreconditionViolated(Unsupported):
+    """a std call whose result is unspecified for these arguments (unsorted slice / inconsistent comparator)"""
+
+    def __init__(self, what, msg):
+        Unsupported.__init__(self, "%s: %s" % (what, msg))
+        self.what = what
+
+
+def _raise(ex):
+    raise ex
+
+
+def _int_from(v):
+    if isinstance(v, bool):
+        return int(v)
+    if _isint(v):
+        return v
+    if isinstance(v, tuple) and len(v) == 2 and v[0] == "char":
+        return v[1]
+    raise Unsupported("integer From of %s" % type(v).__name__)
